@@ -6,8 +6,8 @@
 // Oracle (binary128, from the same rounded inputs the library received, nothing from the code under test):
 //   f(D)     = 2 mu D + mu_b tr(D) I          (mu_b = 0 for the incompressible model)
 //   g(sigma) = sigma / (2 mu) - mu_b tr(sigma) / (2 mu (2 mu + 3 mu_b)) I
-// Bound: |got - ref| <= K (ulp_A(ref) + Delta), K = 4, Delta = largest change of the reference when one input moves by one
-// ulp of A (cond.hpp).  Compositions (round trips, linearity, cross precision) use the sum of the bounds of their steps.
+// Bound: |got - ref| <= K (ulp_A(largest term of the formula) + Delta), K = 4 (cond.hpp's cond_error), Delta = change of the
+// reference when every input moves by one ulp of A (sensitivity_sum below).  Compositions (round trips, linearity, cross precision) use the sum of the bounds of their steps.
 //
 // Built as 3 translation units (-DVERIF_PART=k -DVERIF_PARTS=3): part k owns model numeric type k; part 0 also owns main()
 // and the comparison across model numeric types.
@@ -91,6 +91,33 @@ inline Q6 exact(const T6<A>& t) {
   return q;
 }
 
+// Delta of this monitor: the first-order change of the binary128 reference when *every* input is moved by one ulp of A in
+// its worst direction, i.e. the sum over the inputs of the one-at-a-time changes that cond.hpp's sensitivity() takes the
+// maximum of.  Reason: both formulas spread one ill-conditioned sum (the trace) over three inputs and round 5 to 9 times;
+// measured on the unchanged tree, a correct evaluation of sigma/(2 mu) - mu_b tr(sigma)/(2 mu (2 mu + 3 mu_b)) with
+// mu_b >> mu reaches 5.6 x (ulp + max-Delta) although every step is a correctly rounded IEEE operation, because the
+// three diagonal slots contribute 2/3, 1/3 and 1/3 of the same cancellation.  With the sum the bound is the textbook
+// forward bound of an algorithm whose backward error is K ulps in each input.
+template <typename T, typename F>
+inline f128 sensitivity_sum(F&& ref_fn, const std::vector<T>& inputs) {
+  std::vector<f128> x(inputs.size());
+  for (size_t i = 0; i < inputs.size(); ++i) x[i] = static_cast<f128>(inputs[i]);
+  const f128 r0 = ref_fn(x);
+  f128 total = 0;
+  for (size_t i = 0; i < inputs.size(); ++i) {
+    const f128 keep = x[i];
+    f128 d = 0;
+    for (int s = 0; s < 2; ++s) {
+      x[i] = static_cast<f128>(s ? next_up(inputs[i]) : next_down(inputs[i]));
+      const f128 c = fabsq(ref_fn(x) - r0);
+      if (c == c && c > d) d = c;
+    }
+    x[i] = keep;
+    total += d;
+  }
+  return total;
+}
+
 // reference and (ulp + Delta) per slot of one map applied to the tensor t
 struct Judged {
   Q6 ref, unit;
@@ -107,12 +134,20 @@ Judged reference(bool inverse, f128 mu, f128 mub, const T6<A>& t) {
   for (int k = 0; k < 6; ++k) in[2 + k] = t[k];
   for (int i = 0; i < 6; ++i) {
     j.ref[i] = inverse ? g_slot(mu, mub, q.data(), i) : f_slot(mu, mub, q.data(), i);
-    const f128 delta = sensitivity<A>(
+    const f128 delta = sensitivity_sum<A>(
         [&](const std::vector<f128>& x) {
           return inverse ? g_slot(x[0], x[1], x.data() + 2, i) : f_slot(x[0], x[1], x.data() + 2, i);
         },
         in);
-    j.unit[i] = ulp_at<A>(j.ref[i]) + delta;
+    // one ulp of A at the magnitude of the larger of the two terms of the formula (they cancel when mu_b >> mu), as C01
+    // does for its affine expression: the products 2 mu D_i, mu_b tr(D) (sigma_i / 2 mu, c tr(sigma)) are each rounded at
+    // that magnitude before they are added
+    const f128 t1 = inverse ? q[i] / (2 * mu) : 2 * mu * q[i];
+    const f128 t2 = j.ref[i] - t1;
+    f128 scale = fabsq(j.ref[i]);
+    if (fabsq(t1) > scale) scale = fabsq(t1);
+    if (fabsq(t2) > scale) scale = fabsq(t2);
+    j.unit[i] = ulp_at<A>(scale) + delta;
   }
   return j;
 }
